@@ -227,6 +227,10 @@ def b_int(ip, args, kw, ctx):
         return seqops.seq_int(v, 10, ctx)
     if v is None:
         _raise("TypeError", "int() argument must be a string or a number, not NoneType")
+    for mm in ip.method_models:
+        r = mm(ip, v, "__int__", [], {}, ctx)
+        if r is not NotImplemented:
+            return r
     raise _uns(f"int of {type(v).__name__}")
 
 
